@@ -30,6 +30,8 @@ CONSTANTS
   InvAmt,     \* [InvId -> amount of the invoice, 0 = amountless]
   MaxParts, MaxPays, MaxCrash, MaxClock, MaxW, MaxR,
   HeightSet,  \* heights the chain may rise to
+  Probes,     \* Seq of HTLC ids of Cat that are probes: fully funding sets sent one after the other once the run
+              \* is over, to a cooperative recipient (C09); <<>> = no probe phase
   Direct,     \* number of direct calls of wait_payment / pay allowed (C15, C16); 0 in lifecycle instances
   Pinned      \* subset of {"D4","D5"}: model the pinned (defective) code at these points
 
@@ -107,7 +109,7 @@ Init ==
   /\ tails = [h \in Hashes |-> NoTails]
   /\ nextAtt = 1
   /\ lastAns = {}
-  /\ budget = [pays |-> MaxPays, crashes |-> MaxCrash, w |-> MaxW, r |-> MaxR, direct |-> Direct]
+  /\ budget = [pays |-> MaxPays, crashes |-> MaxCrash, w |-> MaxW, r |-> MaxR, direct |-> Direct, phase |-> "run"]
 
 ---------------------------------------------------------------------------
 (* A burst's effect on the plugin state of ONE hash is computed             *)
@@ -291,8 +293,12 @@ EnvOnly(ev) ==
 (* Actions                                                                  *)
 
 \* handle_htlc
+ProbeIds == {Probes[k] : k \in 1..Len(Probes)}
+ProbeTurn(i) == \E k \in 1..Len(Probes) : Probes[k] = i /\ \A j \in 1..k - 1 : htlc[Probes[j]].st = "answered"
+
 Arrive(i) ==
   /\ htlc[i].st = "unsent"
+  /\ IF i \in ProbeIds THEN budget.phase = "probe" /\ ProbeTurn(i) ELSE budget.phase = "run"
   /\ LET rec == htlc[i]
          ev == [t |-> "htlc", i |-> i, rec |-> rec]
          h == rec.key
@@ -378,12 +384,13 @@ PayRunningAt(h) == own[h].pc = "pay" /\ own[h].main.st = "running"
 
 PayPart(h) ==
   /\ PayRunningAt(h)
-  /\ Len(parts) < MaxParts
+  /\ IF budget.phase = "probe" THEN ~Live(h) ELSE Len(parts) < MaxParts   \* cooperative recipient: one part
   /\ EnvOnly([t |-> "paypart", hash |-> h])
   /\ UNCHANGED <<table, own, tails, nextAtt, budget>>
 
 PartDone(p, how, code) ==
   /\ p \in PartIds /\ parts[p].st = "pending"
+  /\ budget.phase = "probe" => how = "complete"
   /\ EnvOnly([t |-> "partdone", p |-> p, how |-> how, code |-> code])
   /\ UNCHANGED <<table, own, tails, nextAtt, budget>>
 
@@ -414,6 +421,7 @@ PayOutcomes == {"complete", "pending", "failed_warn", "failed", "error"}
 \* E4: complete needs a completed part; FAILED without the warning needs nothing live
 PayReturn(h, outcome) ==
   /\ PayRunningAt(h)
+  /\ budget.phase = "probe" => outcome = "complete"
   /\ outcome = "complete" => Completed(h)
   /\ outcome = "failed" => ~Live(h)
   /\ own' = [own EXCEPT ![h].main = [@ EXCEPT !.st = "executed", !.res = [r |-> outcome]]]
@@ -429,6 +437,15 @@ Deliver(h, d) ==
         THEN \E r \in OwnerDeliver(h, d.slot, d.p) : Apply(h, ev, r, <<>>)
         ELSE Apply(h, ev, TailDeliver(h, d.t), <<>>)
      /\ UNCHANGED budget
+
+\* C09: the run is over (nothing of the plugin is active); from now on only the probe sets arrive, one after the
+\* other, no more crashes or faults, and the recipient cooperates
+Quiescent == \A h \in Hashes : own[h].pc = "none" /\ DOMAIN tails[h] = {}
+StartProbe ==
+  /\ Probes # <<>> /\ budget.phase = "run" /\ Quiescent
+  /\ budget' = [pays |-> Len(Probes), crashes |-> 0, w |-> 0, r |-> 0, direct |-> 0, phase |-> "probe"]
+  /\ EnvOnly([t |-> "probe"])
+  /\ UNCHANGED <<table, own, tails, nextAtt>>
 
 \* one second passes; every expired select! timer fires (530-534)
 Tick ==
@@ -466,7 +483,7 @@ Next ==
   \/ \E h \in Hashes : PayPart(h) \/ MkPart(h) \/ CallWp(h) \/ CallPay(h)
   \/ \E h \in Hashes, o \in PayOutcomes : PayReturn(h, o)
   \/ \E p \in PartIds : PartDone(p, "complete", 0) \/ PartDone(p, "failed", 203)
-  \/ Tick
+  \/ Tick \/ StartProbe
   \/ \E x \in HeightSet : Height(x)
   \/ Crash(FALSE) \/ Crash(TRUE)
 
@@ -478,6 +495,10 @@ Spec == Init /\ [][Next]_vars
 TypeOK ==
   /\ \A h \in Hashes : table[h].on <=> (own[h].pc # "none" /\ own[h].mode = "lc")
   /\ \A h \in Hashes : ~table[h].on => HeldT(h) = {}
+
+(* C09 on the design: once every probe set has been answered, one of them was settled with the preimage *)
+C09design == (Probes # <<>> /\ \A k \in 1..Len(Probes) : htlc[Probes[k]].st = "answered")
+               => \E k \in 1..Len(Probes) : htlc[Probes[k]].resp.r = "resolve" /\ htlc[Probes[k]].resp.key = htlc[Probes[k]].hash
 
 \* the listed properties as action properties of the design
 PC01 == [][C01]_vars
